@@ -49,8 +49,16 @@ def case_s(draw, only_cls: str | None = None) -> dict[str, Any]:
         req = refcodec.REQ[cls].encode(kw)
     sid = req[0]
     rk = draw(st.sampled_from(["genuine", "genuine", "neg-same", "neg-other", "neg-same-invalid-code", "neg-same-badlen",
-                               "other-service", "other-service", "echo-changed", "echo-changed", "broken-format"]))
+                               "other-service", "other-service", "echo-changed", "echo-changed", "broken-format", "echo-other-requested"]))
     reply: bytes | None = None
+    if rk == "echo-other-requested":
+        # a reply that echoes an identifier of the request - but not the primary (first) one
+        dids = refcodec.aslist(kw["data_identifiers"]) if cls == "ReadDataByIdentifierRequest" else []
+        others = [d for d in dids[1:] if d != dids[0]] if dids else []
+        if others:
+            reply = b"\x62" + draw(st.sampled_from(others)).to_bytes(2, "big") + (tail or b"\x00")
+        else:
+            rk = "echo-changed"
     if rk == "genuine":
         if kind == "raw":
             rk = "neg-same"
@@ -122,6 +130,8 @@ def expected(case: dict[str, Any]) -> set[str]:
         return {"malformed"}
     if rk == "other-service":
         return {"mismatch"}
+    if rk == "echo-other-requested":
+        return {"mismatch"}
     if rk == "echo-changed":
         k, _ = refcodec.ref_decode_response(reply)
         if k != "malformed":
@@ -156,7 +166,7 @@ def check(case: dict[str, Any]) -> list[tuple[str, str]]:
     if kind == "raw" and not isinstance(service.UDSRequest.parse_dynamic(req), service.RawRequest):
         return []  # generator meant an undecodable request; it decodes, so expectations do not apply
     exp = expected(case)
-    tag = case["cls"] if (case["cls"] and rk in ("genuine", "echo-changed", "broken-format")) else kind
+    tag = case["cls"] if (case["cls"] and rk in ("genuine", "echo-changed", "broken-format", "echo-other-requested")) else kind
     try:
         r = parse_pdu(reply, request)
         outcome = "accept"
